@@ -2,6 +2,8 @@
   C11 — stack backends hold exactly their stated capacity and never use the heap.
 -/
 import AnyVecModel.Props.C01
+import AnyVecModel.Proofs.KernelStack
+import AnyVecModel.Proofs.KernelCap
 namespace AnyVec
 namespace C11
 open World
@@ -99,6 +101,28 @@ example : fixed sampleVec.bk ∧ sampleVec.len = sampleVec.cap ∧ sampleVec.WF 
   refine ⟨trivial, rfl, by decide⟩
 example : VecSt.buildCap (.stack 16) 8 8 = .ok 2 := by decide
 example : VecSt.buildCap (.stackN 3 16) 8 8 = .panic "Insufficient storage!" := by decide
+
+/-! ### tie to the source text -/
+
+/-- **source tie**: the capacities of the fixed backends are `Stack::build` / `StackN::build` (+ `size`) of
+`/repo/src/mem/stack{,_n}.rs` as re-translated on this run. -/
+theorem fixed_capacities_are_the_source (n bytes size align : Nat) :
+    (VecSt.buildCap (.stack bytes) size align =
+      match Gen.Kernel.stack_build bytes size align with
+      | .ok (.ret c) => .ok c
+      | .ok _ => .ub "kernel: unexpected result"
+      | .panic m => .panic m
+      | .ub m => .ub m) ∧
+    (VecSt.buildCap (.stackN n bytes) size align =
+      match Gen.Kernel.stackn_build n bytes size align, Gen.Kernel.stackn_size n with
+      | .ok .none, .ok (.ret c) => .ok c
+      | .panic m, _ => .panic m
+      | _, _ => .ub "kernel: unexpected result") :=
+  ⟨KernelTie.stack_build_tie bytes size align, KernelTie.stackn_build_tie n bytes size align⟩
+
+theorem reserve_one_is_the_source (v : VecSt) :
+    v.reserveOne = KernelTie.applyEff v (Gen.Kernel.reserve_one v.len v.cap) ∧ Gen.Kernel.expand_one = .ok (.expand 1) :=
+  KernelTie.reserve_one_tie v
 
 end C11
 end AnyVec
